@@ -141,7 +141,7 @@ def item_check(si, mult, named, with_units, two, x, s, arm):
 def ob_item(si: int, mult: int, with_units: bool, x: int, s: str, arm: bool) -> int:
     """
     pre: 0 <= si < N_SITES and si % SHARD_N == SHARD_I
-    pre: 0 <= mult <= 5
+    pre: 0 <= mult <= 6
     pre: len(s) <= 2 and s.isascii()
     post: _ == 0
     """
@@ -151,7 +151,7 @@ def ob_item(si: int, mult: int, with_units: bool, x: int, s: str, arm: bool) -> 
 def reach_item(si: int, mult: int, with_units: bool, x: int, s: str, arm: bool) -> int:
     """
     pre: 0 <= si < N_SITES and si % SHARD_N == SHARD_I
-    pre: 0 <= mult <= 5
+    pre: 0 <= mult <= 6
     pre: len(s) <= 2 and s.isascii()
     post: _ != 0
     """
